@@ -52,8 +52,9 @@ Section Wrapper.
   | ODbl                  (* double_in_place *)
   | ONeg                  (* v = v.negate() *)
   | OSel (q : apt)        (* v = conditionally_select(true, v, q) *)
+  | OIsEq (q : apt)       (* read v.is_eq(&w): needs the elements of both operands *)
   | OClone.               (* v = v.clone() *)
-  Inductive wout := RdEnc (s : F) | RdVal (p : apt).
+  Inductive wout := RdEnc (s : F) | RdVal (p : apt) | RdBool (b : bool).
 
   (* LazyElementVar::element *)
   Definition force_elt (w : wvar) : wvar * apt :=
@@ -85,6 +86,7 @@ Section Wrapper.
     | ODbl => (rewrap w gdbl, nil)
     | ONeg => (rewrap w gneg, nil)
     | OSel q => (rewrap w (fun p => p), nil)
+    | OIsEq q => let '(w', p) := force_elt w in (w', RdBool (is_eq_g (aX p) (aY p) (aX q) (aY q)) :: nil)
     | OClone => (w, nil)
     end.
 
@@ -107,6 +109,7 @@ Section Wrapper.
     | OSub q => (nadd p (nneg q), nil)
     | ODbl => (nadd p p, nil)
     | ONeg => (nneg p, nil)
+    | OIsEq q => (p, RdBool (is_eq_g (aX p) (aY p) (aX q) (aY q)) :: nil)
     end.
   Fixpoint nrun (p : apt) (ops : list wop) : apt * list wout :=
     match ops with
